@@ -106,7 +106,7 @@ def select(all_sites, stride):
         k = (s['file'], s['op'])
         i = seen.get(k, 0)
         seen[k] = i + 1
-        if i % stride == stride // 2:
+        if i % stride == (stride // 2 + int(os.environ.get('MUT_OFFSET', '0'))) % stride:
             out.append(s)
     return out
 
